@@ -10,6 +10,7 @@ use super::*;
 //@include prelude/dbview.rs
 //@include prelude/hof.rs
 //@include prelude/resolve_spec.rs
+//@include prelude/resolve_l2.rs
 } // mod pre
 use pre::*;
 
@@ -41,8 +42,8 @@ impl FixtureDatabase {
 @closure 3 |def: &&FixtureDefinition| -> (b: bool) requires call_requires(filter, (*def,)) ensures call_ensures(filter, (*def,), b)
 @sig
     requires forall|d: &FixtureDefinition| #[trigger] call_requires(filter, (d,)),
-    ensures forall|fs: spec_fn(DefV) -> bool| #[trigger] consistent(filter, fs) ==>
-        opt_dv(r) == op_resolve(bucket(self.defs(), fixture_name@), pv(file_path), self.prov(fixture_name@), fs),
+    ensures forall|fs: spec_fn(DefV) -> bool| consistent(filter, fs) ==>
+        #[trigger] resolve_post(r, bucket(self.defs(), fixture_name@), pv(file_path), self.prov(fixture_name@), fs),
 @start
     proof { lemma_resolve_empty(); }
     let ghost prov = self.prov(fixture_name@);
@@ -187,6 +188,25 @@ impl FixtureDatabase {
         }
     }
 @*/
+
+/*@ extract src/fixtures/resolver.rs find_closest_definition
+@tags C01 C04 C05 C16 C17 C20
+@ret r
+@closure 1 |_d: &FixtureDefinition| -> (b: bool) ensures b == true
+@sig
+    ensures resolve_post(r, bucket(self.defs(), fixture_name@), pv(file_path), self.prov(fixture_name@), fs_true()),
+@*/
+
+/*@ extract src/fixtures/resolver.rs find_closest_definition_excluding
+@tags C02 C04 C20
+@ret r
+@closure 1 |def: &FixtureDefinition| -> (b: bool) ensures b == fs_excl(opt_ref_dv(exclude))(dv(def))
+@derefcmp def excluded
+@sig
+    ensures resolve_post(r, bucket(self.defs(), fixture_name@), pv(file_path), self.prov(fixture_name@), fs_excl(opt_ref_dv(exclude))),
+@*/
 }
+
+pub open spec fn opt_ref_dv(o: Option<&FixtureDefinition>) -> Option<DefV> { match o { Some(d) => Some(dv(d)), None => None } }
 } // verus!
 fn main() {}
